@@ -37,7 +37,8 @@ MANIFEST = {
                   'save-transform-delegate-restore typestate on the CFG of the wrapper evaluate()s, '
                   'same-expression check of the permutation table, structural checks of sign flip, '
                   'numpy converter options and bound restriction'
-                  '; shifted bounds evaluated on a finite sample grid along CFG paths; shared C14.R1'),
+                  '; shifted bounds evaluated on a finite sample grid along CFG paths; shared C14.R1'
+                  '; stateless-evaluate lint, row-at-a-time call of the wrapped function, broken-swap lint'),
     'level_text': (
         'Static: every experimenter returns its problem statement by value; every wrapper that '
         'rewrites the suggested parameters restores the original objects after delegating; the '
